@@ -81,13 +81,19 @@ MODULES = [
              rep='self.recursive_index_block(reader, |c: &mut BlockCursor<Block>| -> (r: Option<(&[u8], &[u8])>) requires (*c).wf() ensures mover_post(MovKind::Prev, *old(c), *final(c), r) { c.move_on_prev() }, Ghost(MovKind::Prev))'),
         dict(name='R-ghost-arg:init-1', pat='self.initial_index_blocks(reader, mov)?', rep='self.initial_index_blocks(reader, mov, Ghost(kind))?'),
         dict(name='R-iter-mut-index:none-arm', pat='None => self.inner = self.initial_index_blocks(reader, mov, Ghost(kind))?,', rep='false => self.inner = self.initial_index_blocks(reader, mov, Ghost(kind))?,'),
-        dict(name='R-ghost-arg:init-2', pat='self.initial_index_blocks(&mut reader, &mut mov)?', rep='self.initial_index_blocks(&mut *reader, &mut mov, Ghost(kind))?'),
+        # R-closure-by-ref: the one call that hands the mover on as `&mut mov` goes through a TRUSTED shim (spec: init_by_ref) stating
+        # that the closure keeps its contract; its body is the original call
+        dict(name='R-closure-by-ref:init-2', pat='self.initial_index_blocks(&mut reader, &mut mov)?', rep='self.init_by_ref(&mut *reader, &mut mov, Ghost(kind))?'),
         # the nested `recursive` gets one ghost parameter (erased) describing the levels it is given; its tail call in
         # recursive_index_block is let-bound so that ghost state can be updated after it returns (R-tail-let)
         dict(name='R-ghost-param:recursive', pat="            mov: &mut FN,\n        ) -> crate::Result<Option<(&'a [u8], &'a [u8])>>", rep="            mov: &mut FN,\n            Ghost(cx): Ghost<RecCx>,\n        ) -> crate::Result<Option<(&'a [u8], &'a [u8])>>"),
-        dict(name='R-ghost-arg:recursive-inner', pat='match recursive(reader, compression_type, head, mov)? {', rep='match recursive(reader, compression_type, head, mov, Ghost(cx.up()))? {'),
+        # R-try-split / R-tail-let inside `recursive`: `match f(..)? {` -> `let ih0 = f(..); let ih = ih0?; match ih {` and
+        # `Ok(expr)` in tail position -> `{ let rr = expr; Ok(rr) }` (statement positions for proof hints; evaluation order unchanged)
+        dict(name='R-try-split:recursive-inner', pat='match recursive(reader, compression_type, head, mov)? {', rep='let ih0 = recursive(reader, compression_type, head, mov, Ghost(cx.up()));\n                            let ih = ih0?;\n                            match ih {'),
+        dict(name='R-tail-let:rec-current', pat='Some((_key, _offset)) => Ok(cursor.current()),', rep='Some((_key, _offset)) => {\n                            let rr = cursor.current();\n                            Ok(rr)\n                        }'),
+        dict(name='R-tail-let:rec-mov', pat='Ok((mov)(cursor))', rep='{\n                                    let rr = (mov)(cursor);\n                                    Ok(rr)\n                                    }'),
         dict(name='R-tail-let:recursive', pat='Some(inner) => recursive(&mut reader, self.compression_type, inner, &mut mov),',
-             rep='Some(inner) => { let rr = recursive(&mut *reader, self.compression_type, inner, &mut mov, Ghost(cx0)); rr }'),
+             rep='Some(inner) => {\n                let rr = recursive(&mut *reader, self.compression_type, inner, &mut mov, Ghost(cx0));\n                rr\n            }'),
         # R-iter-mut-index: `match self.inner.as_mut() { Some(inner) => { ..; for (offset, cursor) in inner { B } } None => X }` becomes
         # `match self.inner.is_some() { true => { ..; let mut vi = 0; while vi < self.inner.as_ref().unwrap().len() {
         #    let ve = &mut self.inner.as_mut().unwrap()[vi]; let offset = &mut ve.0; let cursor = &mut ve.1; B; vi += 1 } } false => X }`
